@@ -32,8 +32,19 @@ def build():
     t0 = time.time()
     # built beside the final name and renamed into place: several checks may build (and run the binary) at the same time
     tmp = "%s.%d.tmp" % (BIN, os.getpid())
-    p = subprocess.run(["go1.26.8", "test", "-c", "-tags", "verif", "-o", tmp, "."], cwd=SIM, env=GOENV,
-                       stdout=subprocess.PIPE, stderr=subprocess.STDOUT, text=True)
+    lock = os.open(os.path.join(BUILD, "build.lock"), os.O_CREAT | os.O_RDWR, 0o644)
+    fcntl.flock(lock, fcntl.LOCK_EX)  # one build at a time on this machine; the others wait and hit the build cache
+    try:
+        env = dict(GOENV, GOMAXPROCS=os.environ.get("VERIF_BUILD_PROCS", "8"))
+        for attempt in range(6):
+            p = subprocess.run(["go1.26.8", "test", "-c", "-p", "4", "-tags", "verif", "-o", tmp, "."], cwd=SIM, env=env,
+                               stdout=subprocess.PIPE, stderr=subprocess.STDOUT, text=True)
+            if p.returncode == 0 or not any(m in p.stdout for m in RESOURCE_MARKS + ("goroutine ",)):
+                break
+            time.sleep(3 + attempt * 3)  # the toolchain itself died for lack of threads: wait for the machine to calm down
+    finally:
+        fcntl.flock(lock, fcntl.LOCK_UN)
+        os.close(lock)
     if p.returncode != 0:
         log("BUILD FAILED (exit 2):\n" + p.stdout[-6000:])
         try:
@@ -43,6 +54,43 @@ def build():
         sys.exit(2)
     os.replace(tmp, BIN)
     return time.time() - t0
+
+
+import fcntl, contextlib
+
+
+@contextlib.contextmanager
+def global_slot():
+    """At most N simulated processes run at once on this machine, however many checks run side by side
+    (file locks under .build/slots; N = VERIF_SLOTS or the number of CPUs, at most 16)."""
+    n = int(os.environ.get("VERIF_SLOTS", "0") or 0) or min(16, os.cpu_count() or 4)
+    d = os.path.join(BUILD, "slots")
+    os.makedirs(d, exist_ok=True)
+    start = (os.getpid() * 7 + int(time.time() * 1000)) % n
+    fd = None
+    while fd is None:
+        for k in range(n):
+            i = (start + k) % n
+            f = os.open(os.path.join(d, "slot-%02d.lock" % i), os.O_CREAT | os.O_RDWR, 0o644)
+            try:
+                fcntl.flock(f, fcntl.LOCK_EX | fcntl.LOCK_NB)
+                fd = f
+                break
+            except OSError:
+                os.close(f)
+        if fd is None:
+            time.sleep(0.03)
+    try:
+        yield
+    finally:
+        try:
+            fcntl.flock(fd, fcntl.LOCK_UN)
+        finally:
+            os.close(fd)
+
+
+RESOURCE_MARKS = ("failed to create new OS thread", "pthread_create failed", "Resource temporarily unavailable",
+                  "cannot allocate memory", "runtime: may need to increase max user processes", "newosproc", "fork/exec")
 
 
 def spawn_with_retry(cmd, workdir, env, timeout):
@@ -84,8 +132,18 @@ def run_child(plan, workdir, keeplog=False, timeout=90, gomaxprocs="1"):
             env["VERIF_KEEPLOG"] = "1"
         try:
             cmd = ["bash", "-c", "ulimit -v 6291456; exec '%s' -test.run '^TestChild$' -test.timeout 120s" % BIN]
-            p = spawn_with_retry(cmd, workdir, env, timeout)
-            rc, out, err = p.returncode, p.stdout, p.stderr
+            for attempt in range(40):
+                if os.path.exists(of):
+                    os.remove(of)
+                with global_slot():
+                    p = spawn_with_retry(cmd, workdir, env, timeout)
+                rc, out, err = p.returncode, p.stdout, p.stderr
+                if os.path.exists(of) or not any(m.encode() in (out + err) for m in RESOURCE_MARKS):
+                    break
+                # the process died before it could run (the machine is out of threads / processes): wait and try again
+                time.sleep(min(0.5 + attempt * 0.5, 8.0))
+            else:
+                return {"status": "noresult", "rc": rc, "output": "child could not be started (out of threads/processes) after 40 attempts:\n" + (out + err).decode("utf8", "replace")[-3000:], "plan": plan, "stats": {}, "probes": {}}
         except subprocess.TimeoutExpired as e:
             return {"status": "timeout", "harness": "child exceeded %ds wall" % timeout, "plan": plan, "stats": {}, "probes": {},
                     "stdout": (e.stdout or b"")[-4000:].decode("utf8", "replace")}
@@ -98,6 +156,8 @@ def run_child(plan, workdir, keeplog=False, timeout=90, gomaxprocs="1"):
         if res is None:
             txt = (out + b"\n" + err).decode("utf8", "replace")
             status = "panic" if ("panic:" in txt or "fatal error:" in txt or "[PANIC]" in txt or "goroutine " in txt) else "noresult"
+            if any(m in txt for m in RESOURCE_MARKS) and "milvus-cdc" not in txt.split("goroutine ")[0]:
+                status = "noresult"
             return {"status": status, "rc": rc, "output": txt[-12000:], "plan": plan, "stats": {}, "probes": {}}
         res["rc"] = rc
         res["child_output"] = (out + err)
